@@ -224,7 +224,7 @@ def run(ctx):
                         'BatchNorm in eval mode = per-channel affine map with r = rsqrt(var+eps) computed by torch (float64); the folding theorem holds for every r',
                         'MPS: only the mode skeleton of the conversion is modelled (the property states nothing else about MPS)']
 
-    if not ctx.violations and not ctx.known_printed:
+    if not ctx.violations:   # a printed KNOWN-FINDING must not hide a broken proof / model / correspondence
         if not built:
             ctx.violation('proof-broken', {'theorems': [o[0] for o in ctx.obligations if not o[1]], 'log': getattr(ctx, 'broken_log', '')[-3000:]}, 'Props/C07.v no longer checks', no_input=True)
         elif not model_ok:
